@@ -1,0 +1,97 @@
+//go:build verif
+
+/*
+ * In-package access to defaultPolicy for the /verif harness (policy stream,
+ * properties C03 / C09).  Compiled only with `-tags verif`; add-only.
+ */
+
+package ristretto
+
+import "sort"
+
+// VerifPolicy wraps a defaultPolicy whose key type is irrelevant (the policy
+// only ever sees key hashes).
+type VerifPolicy struct {
+	P *defaultPolicy[uint64]
+	M *Metrics
+}
+
+// VerifPair is one (key hash, cost) pair.
+type VerifPair struct {
+	Key  uint64
+	Cost int64
+}
+
+// VerifNewPolicy builds a policy exactly as NewCache does (newPolicy +
+// CollectMetrics), including its processItems goroutine; call Close.
+func VerifNewPolicy(numCounters, maxCost int64) *VerifPolicy {
+	v := &VerifPolicy{P: newPolicy[uint64](numCounters, maxCost), M: newMetrics()}
+	v.P.CollectMetrics(v.M)
+	return v
+}
+
+// Add runs defaultPolicy.Add and flattens the victims.
+func (v *VerifPolicy) Add(key uint64, cost int64) (victims []VerifPair, added bool) {
+	items, added := v.P.Add(key, cost)
+	victims = make([]VerifPair, 0, len(items))
+	for _, it := range items {
+		victims = append(victims, VerifPair{Key: it.Key, Cost: it.Cost})
+	}
+	return victims, added
+}
+
+func (v *VerifPolicy) Del(key uint64)                { v.P.Del(key) }
+func (v *VerifPolicy) Update(key uint64, cost int64) { v.P.Update(key, cost) }
+func (v *VerifPolicy) Cap() int64                    { return v.P.Cap() }
+func (v *VerifPolicy) Cost(key uint64) int64         { return v.P.Cost(key) }
+func (v *VerifPolicy) Has(key uint64) bool           { return v.P.Has(key) }
+func (v *VerifPolicy) Clear()                        { v.P.Clear() }
+func (v *VerifPolicy) MaxCost() int64                { return v.P.MaxCost() }
+func (v *VerifPolicy) UpdateMaxCost(maxCost int64)   { v.P.UpdateMaxCost(maxCost) }
+func (v *VerifPolicy) Close()                        { v.P.Close() }
+
+// KeyCosts returns a copy of evict.keyCosts sorted by key, read under the lock.
+func (v *VerifPolicy) KeyCosts() []VerifPair {
+	v.P.Lock()
+	out := make([]VerifPair, 0, len(v.P.evict.keyCosts))
+	for k, c := range v.P.evict.keyCosts {
+		out = append(out, VerifPair{Key: k, Cost: c})
+	}
+	v.P.Unlock()
+	sort.Slice(out, func(i, j int) bool { return out[i].Key < out[j].Key })
+	return out
+}
+
+// Used returns evict.used, read under the lock.
+func (v *VerifPolicy) Used() int64 {
+	v.P.Lock()
+	u := v.P.evict.used
+	v.P.Unlock()
+	return u
+}
+
+// Plant increments the admission counter of key n times (as n Gets would).
+func (v *VerifPolicy) Plant(key uint64, n int) {
+	v.P.Lock()
+	for i := 0; i < n; i++ {
+		v.P.admit.Increment(key)
+	}
+	v.P.Unlock()
+}
+
+// Estimate reads the admission estimate of key under the lock.
+func (v *VerifPolicy) Estimate(key uint64) int64 {
+	v.P.Lock()
+	e := v.P.admit.Estimate(key)
+	v.P.Unlock()
+	return e
+}
+
+// Metric counters fed by the policy.
+func (v *VerifPolicy) CostAdded() uint64   { return v.M.get(costAdd) }
+func (v *VerifPolicy) CostEvicted() uint64 { return v.M.get(costEvict) }
+func (v *VerifPolicy) KeysEvicted() uint64 { return v.M.get(keyEvict) }
+func (v *VerifPolicy) KeysUpdated() uint64 { return v.M.get(keyUpdate) }
+func (v *VerifPolicy) SetsRejected() uint64 {
+	return v.M.get(rejectSets)
+}
